@@ -259,6 +259,41 @@ fn prepare(spec: &AssetSpec) -> Result<Prepared, String> {
     Ok(Prepared { spec: spec.clone(), report: sdk::report_same_bytes(&r), verdict: sdk::verdict(&r), bytes, excluded })
 }
 
+fn first_diff(a: &Value, b: &Value, path: &str) -> String {
+    match (a, b) {
+        (Value::Object(x), Value::Object(y)) => {
+            for (k, v) in x {
+                match y.get(k) {
+                    None => return format!("{path}/{k}: missing after mutation"),
+                    Some(w) if w != v => return first_diff(v, w, &format!("{path}/{k}")),
+                    _ => {}
+                }
+            }
+            for k in y.keys() {
+                if !x.contains_key(k) {
+                    return format!("{path}/{k}: only after mutation");
+                }
+            }
+            "objects equal".into()
+        }
+        (Value::Array(x), Value::Array(y)) => {
+            if x.len() != y.len() {
+                return format!("{path}: array length {} vs {}", x.len(), y.len());
+            }
+            for (i, (v, w)) in x.iter().zip(y).enumerate() {
+                if v != w {
+                    return first_diff(v, w, &format!("{path}/{i}"));
+                }
+            }
+            "arrays equal".into()
+        }
+        _ => {
+            let (sa, sb) = (a.to_string(), b.to_string());
+            format!("{path}: {} vs {}", &sa[..sa.len().min(120)], &sb[..sb.len().min(120)])
+        }
+    }
+}
+
 fn inside(e: &[(usize, usize)], s: usize, t: usize) -> bool {
     if s == t {
         // insertion point: strictly inside one excluded range
@@ -311,30 +346,65 @@ fn judge(run: &Run, p: &Prepared, m: &Mutation) -> CaseResult {
             "{mclass} touching original bytes [{s},{t}) of {} ({} bytes, binding {}, excluded ranges {:?}) is outside the declared exclusions but the asset still reads {}",
             p.spec.label, p.bytes.len(), p.spec.binding, p.excluded, sdk::state_name(r.validation_state())
         );
-        // Box hash: name the failure class after what the SDK's own box map says about the mutated file
-        // (bytes that no box of the map covers) so that this known weakness does not mask other failures.
-        let mut uncovered = false;
+        // Box hash: one known weakness (bytes that no entry of the SDK's box map covers: trailing bytes, stray bytes
+        // between JPEG segments) must not mask anything else, so the class is derived carefully:
+        //  * only ADDED bytes (insert/append) that the map of the mutated file leaves uncovered, or original bytes
+        //    behind the last box of the original map, fall into the known class;
+        //  * original bytes in a hole of the original map get a class named after the walker's unit at that place;
+        //  * everything else is protected content.
+        let fmt_label = p.spec.label.split('-').next().unwrap_or("").to_string();
+        let mut sig = format!("C01:protected-content-changed-but-valid:{}", p.spec.binding);
         if p.spec.binding == "box" {
-            if let Ok(map) = c2pa::verif_hooks::box_map(&p.spec.format, &mutated) {
-                let mut cov = vec![false; mutated.len()];
+            let cover = |bytes: &[u8]| -> Option<(Vec<bool>, usize)> {
+                let map = c2pa::verif_hooks::box_map(&p.spec.format, bytes).ok()?;
+                let mut cov = vec![false; bytes.len()];
+                let mut last_end = 0usize;
                 for (_, st, ln, _) in &map {
-                    let (a, b) = ((*st as usize).min(mutated.len()), ((*st + *ln) as usize).min(mutated.len()));
+                    let (a, b) = ((*st as usize).min(bytes.len()), ((*st + *ln) as usize).min(bytes.len()));
                     cov[a..b].iter_mut().for_each(|c| *c = true);
+                    last_end = last_end.max(b);
                 }
-                uncovered = cov.iter().any(|c| !*c);
+                Some((cov, last_end))
+            };
+            let added_only = matches!(m, Mutation::Insert { .. } | Mutation::Append { .. });
+            if added_only {
+                if let Some((cov, _)) = cover(&mutated) {
+                    if cov.iter().any(|c| !*c) {
+                        sig = format!("C01:boxhash-uncovered-bytes:{fmt_label}");
+                    }
+                }
+            } else if let Some((cov, last_end)) = cover(&p.bytes) {
+                if s >= last_end {
+                    sig = format!("C01:boxhash-uncovered-bytes:{fmt_label}");
+                } else if (s..t.min(cov.len())).all(|i| !cov[i]) {
+                    let unit = vh::walk::walk(&p.spec.format, &p.bytes)
+                        .ok()
+                        .and_then(|us| us.into_iter().find(|u| u.start <= s && s < u.start + u.len).map(|u| u.kind))
+                        .unwrap_or_else(|| "unknown".into());
+                    sig = format!("C01:boxhash-hole-in-box-map:{fmt_label}:{unit}");
+                }
             }
         }
-        let sig = if uncovered {
-            format!("C01:boxhash-uncovered-bytes:{}", p.spec.label.split('-').next().unwrap_or(""))
-        } else {
-            format!("C01:protected-content-changed-but-valid:{}", p.spec.binding)
-        };
         return Err(Fail::new(sig, what));
     }
-    if sdk::report_same_bytes(&r) != p.report || sdk::verdict(&r) != p.verdict {
+    let rep = sdk::report_same_bytes(&r);
+    if rep != p.report || sdk::verdict(&r) != p.verdict {
+        // Roll-back: the edit made the reader lose the latest (update) manifest, and the previous manifest of
+        // the same store is reported as the active one. Inherent to appended update manifests; own class.
+        let (a0, a1) = (p.report["json"]["active_manifest"].as_str(), rep["json"]["active_manifest"].as_str());
+        let rolled_back = a0 != a1 && a1.map(|l| p.report["json"]["manifests"].get(l).is_some()).unwrap_or(false);
+        let sig = if rolled_back {
+            format!("C01:rollback-to-previous-manifest-still-valid:{}", p.spec.binding)
+        } else {
+            format!("C01:valid-with-different-report:{}", p.spec.binding)
+        };
         return Err(Fail::new(
-            format!("C01:valid-with-different-report:{}", p.spec.binding),
-            format!("{mclass} at [{s},{t}) inside the exclusions of {} leaves the asset Valid but the reported manifest differs", p.spec.label),
+            sig,
+            format!(
+                "{mclass} at [{s},{t}) inside the exclusions of {} leaves the asset Valid but the reported manifest differs (first difference: {})",
+                p.spec.label,
+                first_diff(&p.report, &rep, "")
+            ),
         ));
     }
     Ok(())
@@ -458,6 +528,98 @@ fn mutations_for(p: &Prepared, rng: &mut vh::rng::SplitMix64, payload_samples: u
     out
 }
 
+#[derive(Clone, Debug, Serialize, Deserialize, PartialEq, Eq, Hash)]
+struct FragCase {
+    rendition: String,
+    /// usize::MAX = the init segment
+    fragment: usize,
+    /// 0: first mdat payload byte, 1: middle, 2: last
+    place: u8,
+    bit: u8,
+}
+
+/// Fragmented BMFF (DASH): sign a rendition of the repository's BigBuckBunny fixture with
+/// `Builder::sign_fragmented_files`, then flip one bit of the media payload (mdat) of each single fragment in turn
+/// and validate the whole rendition with `Reader::with_fragmented_files`: it must never stay Valid/Trusted.
+fn fragmented(run: &Run) {
+    use std::path::PathBuf;
+    let renditions: &[&str] = if run.quick() { &["bunny_89283bps"] } else { &["bunny_89283bps", "bunny_595491bps", "bunny_791182bps"] };
+    let work = PathBuf::from(format!("/verif/work/C01/frag-{}", std::process::id()));
+    let _ = std::fs::remove_dir_all(&work);
+    for rend in renditions {
+        let out = work.join(rend);
+        let _ = std::fs::create_dir_all(&work);
+        let init = PathBuf::from(format!("{}/bunny/{rend}/BigBuckBunny_2s_init.mp4", sdk::FIXTURES));
+        let signed = vh::catch(|| {
+            let mut b = c2pa::Builder::from_context(sdk::context()).with_definition(sdk::simple_definition("c01 fragmented").to_string())?;
+            b.set_intent(BuilderIntent::Create(DigitalSourceType::Empty));
+            b.sign_fragmented_files(sdk::signer("ed25519").as_ref(), &init, &PathBuf::from("BigBuckBunny_2s*.m4s"), &work)
+        });
+        if !matches!(signed, Ok(Ok(_))) {
+            run.note(format!("generator_rejected fragmented {rend}: {:?}", signed.map(|r| r.map(|_| ()).map_err(|e| e.to_string()))));
+            run.count("generator_rejected");
+            continue;
+        }
+        let out_init = out.join("BigBuckBunny_2s_init.mp4");
+        let mut frags: Vec<PathBuf> = std::fs::read_dir(&out)
+            .map(|rd| rd.filter_map(|e| e.ok()).map(|e| e.path()).filter(|p| p.extension().map(|x| x == "m4s").unwrap_or(false)).collect())
+            .unwrap_or_default();
+        frags.sort_by_key(|p| {
+            p.file_stem().and_then(|s| s.to_str()).and_then(|s| s.strip_prefix("BigBuckBunny_2s")).and_then(|s| s.parse::<u32>().ok()).unwrap_or(u32::MAX)
+        });
+        let read_state = |init: &PathBuf, frags: &Vec<PathBuf>| -> Option<bool> {
+            match vh::catch(|| c2pa::Reader::from_context(sdk::context()).with_fragmented_files(init, frags)) {
+                Ok(Ok(r)) => Some(sdk::is_valid_or_trusted(&r)),
+                _ => None,
+            }
+        };
+        if read_state(&out_init, &frags) != Some(true) || frags.len() < 3 {
+            run.note(format!("generator_rejected fragmented {rend}: untouched rendition is not Valid"));
+            run.count("generator_rejected");
+            continue;
+        }
+        let mut cases = vec![];
+        for f in 0..frags.len() {
+            for place in 0..3u8 {
+                cases.push(FragCase { rendition: rend.to_string(), fragment: f, place, bit: ((f as u8) * 3 + place) % 8 });
+            }
+        }
+        run.drive_enum("fragmented", cases, |c| {
+            let path = if c.fragment == usize::MAX { out_init.clone() } else { frags[c.fragment.min(frags.len() - 1)].clone() };
+            let orig = std::fs::read(&path).map_err(|e| Fail::new("C01:harness-io", e.to_string()))?;
+            let mdat = bmff_top_boxes(&orig).into_iter().find(|(t, _, _)| t == "mdat");
+            let Some((_, ms, me)) = mdat else {
+                run.count("fragment_without_mdat");
+                return Ok(());
+            };
+            let (ps, pe) = (ms + 8, me);
+            if pe <= ps {
+                return Ok(());
+            }
+            let pos = match c.place {
+                0 => ps,
+                1 => ps + (pe - ps) / 2,
+                _ => pe - 1,
+            };
+            let mut m = orig.clone();
+            m[pos] ^= 1 << (c.bit % 8);
+            std::fs::write(&path, &m).map_err(|e| Fail::new("C01:harness-io", e.to_string()))?;
+            let st = read_state(&out_init, &frags);
+            let _ = std::fs::write(&path, &orig);
+            run.count(&format!("fragmented:{}", match st { Some(true) => "valid", Some(false) => "invalid", None => "err" }));
+            run.nontrivial(c);
+            if st == Some(true) {
+                return Err(Fail::new(
+                    "C01:protected-content-changed-but-valid:bmff-fragmented",
+                    format!("{}: bit flipped at byte {pos} (mdat payload) of fragment #{} ({}) and the rendition still validates", c.rendition, c.fragment, path.display()),
+                ));
+            }
+            Ok(())
+        });
+    }
+    let _ = std::fs::remove_dir_all(&work);
+}
+
 fn main() {
     vh::quiet_panics();
     let run = Run::from_args("C01", "exploration");
@@ -467,8 +629,10 @@ fn main() {
 
     let all_specs = specs(&run);
     // replay: rebuild exactly the asset of the case
-    if let Some((_, case)) = &run.replay {
-        if let Ok(c) = serde_json::from_value::<Case>(case.clone()) {
+    if let Some((check, case)) = &run.replay {
+        if check == "fragmented" {
+            fragmented(&run);
+        } else if let Ok(c) = serde_json::from_value::<Case>(case.clone()) {
             match prepare(&c.asset) {
                 Ok(p) => run.drive_enum("mutations", vec![c.clone()], |c| judge(&run, &p, &c.mutation)),
                 Err(e) => run.inconclusive(format!("replay asset cannot be prepared: {e}")),
@@ -529,6 +693,7 @@ fn main() {
         let p = &prepared[index[&c.asset.label]];
         judge(&run, p, &c.mutation)
     });
+    fragmented(&run);
 
     run.finish();
 }
